@@ -410,3 +410,110 @@ def sensor_models(draw, max_bodies=5, max_sensors=10, min_sensors=3, history=Tru
   labels = set(info.get('labels', []))
   info['labels'] = sorted(labels)
   return mg.GenModel(build_xml(xml, sensors), info)
+
+
+# --------------------------------------------------------------------------- touch family
+
+@st.composite
+def touch_models(draw):
+  """Bodies resting on the floor / on each other with touch zones that are thin compared with the penetration of the
+  (soft or stiff) contact: thin pads, thin discs and small dots on or slightly off the contact surface, next to generous
+  zones and far zones.  Sensor body is geom2's body (body on the floor), geom1's body (world pad under a body, lower
+  body of a stack) or both.  info['state_mode'] = 'settle': the check lets the bodies settle for a few steps."""
+  soft = draw(st.sampled_from([None, None, '.1 1', '.05 1', '.2 1', '.03 1']))
+  sr = ' solref="%s"' % soft if soft else ''
+  floor_soft = sr if draw(st.booleans()) else ''
+  xml = '<mujoco><option timestep="%s"%s/><worldbody><geom name="floor" type="plane" size="3 3 .1"%s/>' % (
+      mg.fmt(draw(st.sampled_from([0.001, 0.002, 0.004]))),
+      ' cone="elliptic"' if draw(st.booleans()) else '', floor_soft)
+  sites = []        # (name, on world?)
+
+  def thin():
+    return draw(st.sampled_from([0.0001, 0.0002, 0.0005, 0.001, 0.002]))
+
+  def body(name, x, y, zbase, stacked):
+    gt = draw(st.sampled_from(['box', 'box', 'sphere', 'cylinder', 'capsule', 'ellipsoid']))
+    if gt == 'box':
+      sz = [draw(mg.num(0.05, 0.2)), draw(mg.num(0.05, 0.2)), draw(mg.num(0.04, 0.12))]
+      hz, fx, fy = sz[2], sz[0], sz[1]
+    elif gt == 'sphere':
+      sz = [draw(mg.num(0.05, 0.15))]
+      hz, fx, fy = sz[0], 0.03, 0.03
+    elif gt == 'cylinder':
+      sz = [draw(mg.num(0.05, 0.15)), draw(mg.num(0.04, 0.12))]
+      hz, fx, fy = sz[1], sz[0], sz[0]
+    elif gt == 'capsule':
+      sz = [draw(mg.num(0.04, 0.1)), draw(mg.num(0.03, 0.1))]
+      hz, fx, fy = sz[0] + sz[1], 0.03, 0.03
+    else:
+      sz = [draw(mg.num(0.06, 0.15)), draw(mg.num(0.06, 0.15)), draw(mg.num(0.04, 0.1))]
+      hz, fx, fy = sz[2], 0.03, 0.03
+    gx = draw(mg.num(-0.02, 0.02))
+    tilt = [draw(st.integers(-3, 3)), draw(st.integers(-3, 3)), draw(st.integers(-180, 180))] if gt in ('box', 'cylinder') \
+        else [0, 0, draw(st.integers(-180, 180))]
+    z = zbase + hz - draw(st.sampled_from([0.0, 0.0005, 0.002]))
+    bx = '<body name="%s" pos="%s" euler="%s"><freejoint/><geom name="g%s" type="%s" size="%s" mass="%s" pos="%s 0 0"%s/>' % (
+        name, mg.fmt([x, y, z]), mg.fmt(tilt), name, gt, mg.fmt(sz), mg.fmt(draw(mg.num(0.5, 8, 1))), mg.fmt(gx),
+        sr if draw(st.booleans()) else '')
+    # zones on the bottom face (z = -hz) and the top face (z = +hz)
+    faces = [('bot', -hz)] + ([('top', hz)] if stacked else [])
+    for fname, fz in faces:
+      off = draw(st.sampled_from([0.0, 0.0, 0.0002, -0.0002, 0.001])) * (1 if fz > 0 else -1)   # + = outside the geom
+      for kind in draw(st.lists(st.sampled_from(['pad', 'pad', 'half', 'disc', 'dot', 'generous']), min_size=2,
+                                max_size=4, unique=True)):
+        sn = '%s_%s_%s' % (name, fname, kind)
+        if kind == 'pad':
+          sx = '<site name="%s" type="box" size="%s" pos="%s"/>' % (sn, mg.fmt([fx * 1.3, fy * 1.3, thin()]),
+                                                                 mg.fmt([gx, 0, fz + off]))
+        elif kind == 'half':
+          sx = '<site name="%s" type="box" size="%s" pos="%s"/>' % (sn, mg.fmt([fx * 0.65, fy * 1.3, thin()]),
+                                                                 mg.fmt([gx + fx * 0.65, 0, fz + off]))
+        elif kind == 'disc':
+          sx = '<site name="%s" type="cylinder" size="%s" pos="%s"/>' % (sn, mg.fmt([max(fx, fy) * 1.5, thin()]),
+                                                                      mg.fmt([gx, 0, fz + off]))
+        elif kind == 'dot':
+          sx = '<site name="%s" type="%s" size="%s" pos="%s"/>' % (
+              sn, draw(st.sampled_from(['sphere', 'ellipsoid'])).replace('ellipsoid', 'sphere'),
+              mg.fmt([draw(st.sampled_from([0.0005, 0.001, 0.003, 0.01]))]), mg.fmt([gx, 0, fz + off]))
+        else:
+          sx = '<site name="%s" type="%s" size="%s" pos="%s"/>' % (
+              sn, draw(st.sampled_from(['box', 'ellipsoid'])), mg.fmt([fx * 1.5, fy * 1.5, 0.03]), mg.fmt([gx, 0, fz]))
+        bx += sx
+        sites.append(sn)
+    fs = name + '_far'
+    bx += '<site name="%s" type="sphere" size="0.01" pos="%s"/>' % (fs, mg.fmt([gx + fx * 3 + 0.1, 0, 0]))
+    sites.append(fs)
+    return bx + '</body>', hz, gt
+
+  nb = draw(st.integers(1, 2))
+  x = 0.0
+  for k in range(nb):
+    stacked = draw(st.integers(0, 2)) == 0
+    bx, hz, gt = body('a%d' % k, x, draw(mg.num(-0.2, 0.2)), 0.0, stacked and True)
+    xml += bx
+    # world pad under the body (the world body is geom1's body of the floor contact)
+    if draw(st.booleans()):
+      wn = 'w%d_%s' % (k, draw(st.sampled_from(['pad', 'disc'])))
+      if wn.endswith('pad'):
+        xml += '<site name="%s" type="box" size="%s" pos="%s"/>' % (wn, mg.fmt([0.3, 0.3, thin()]), mg.fmt([x, 0, 0]))
+      else:
+        xml += '<site name="%s" type="cylinder" size="%s" pos="%s"/>' % (wn, mg.fmt([0.35, thin()]), mg.fmt([x, 0, 0]))
+      sites.append(wn)
+    if stacked and gt in ('box', 'cylinder'):
+      bx2, _, _ = body('b%d' % k, x, 0.0, 2 * hz, False)
+      xml += bx2
+    x += 0.8
+  xml += '</worldbody></mujoco>'
+  n = draw(st.integers(3, min(8, len(sites))))
+  chosen = draw(st.lists(st.sampled_from(sites), min_size=n, max_size=n, unique=True))
+  sensors = []
+  for k, sn in enumerate(chosen):
+    a = dict(name='sn%d' % k, site=sn)
+    cutoff = 0.0
+    if draw(st.integers(0, 5)) == 0:
+      cutoff = draw(st.sampled_from([0.5, 5.0, 50.0]))
+      a['cutoff'] = mg.fmt(cutoff)
+    sensors.append(dict(xml='<touch%s/>' % _attrs(a), kind='touch', obj='site', ref='none', cutoff=cutoff, hist=None,
+                        attrs=a))
+  info = dict(base_xml=xml, sensors=sensors, state_mode='settle', labels=['touch-family'])
+  return mg.GenModel(build_xml(xml, sensors), info)
